@@ -25,12 +25,6 @@ Proof.
   destruct (N.eqb_spec c 47) as [->|Hc]; [exfalso; apply H; left; reflexivity|]. apply IH. intros I. apply H. right. exact I.
 Qed.
 
-Lemma apply_patch_rpatch o f p r : apply_patch o f p = Ok r ->
-  exists hs, r_patch r = set_hunks (if reverse_patch_opt o then reverse_patch p else p) hs.
-Proof.
-  unfold apply_patch. destruct (apply_first _ _ _ _ _) as [s|e]; cbn [rbind]; [|discriminate]. intros [= <-]. eexists. reflexivity.
-Qed.
-
 Lemma land_small m : (m < 4096)%N -> N.land m 4095 = m.
 Proof. intros H. change 4095%N with (N.ones 12). rewrite N.land_ones. apply N.mod_small. exact H. Qed.
 
@@ -94,9 +88,11 @@ Proof.
   (* the hunks *)
   assert (Guard : creation_guard p A).
   { intros E. unfold creates_file in E. rewrite P4 in E. apply str_eqb_eq in E. contradiction. }
-  destruct (apply_conforming o p A B O5 O6 O7 O8 p_conf A_small Guard) as (r & Er & Ro & Rf & Rr & Rs & Rp & Rm).
+  assert (p_conf' : Conforming A B (hunks (effective o p))) by (unfold effective; rewrite O7; exact p_conf).
+  assert (Guard' : creation_guard (effective o p) A) by (unfold effective; rewrite O7; exact Guard).
+  destruct (apply_conforming_gen_full o p A B O5 O6 O8 p_conf' A_small Guard') as (r & Er & Ro & Rf & Rr & Rs & Rp & Rm & hs & Hp3).
   rewrite mbind_eq. unfold mlift. rewrite Er. unfold section_tail.
-  destruct (apply_patch_rpatch _ _ _ _ Er) as (hs & Hp3). rewrite O7 in Hp3.
+  unfold effective in Hp3. rewrite O7 in Hp3.
   rewrite Rf, Rm, Rs, Rp, Ro. cbn [Nat.eqb negb].
   rewrite mbind_eq. cbn [mret].
   rewrite O2. change (str_eqb [] (bs "-")) with false. cbv iota.
